@@ -80,6 +80,7 @@ func (cm *FairMQ) Commit(evt string, src string, dst string, args map[string]str
 				finalState = state
 				break
 			}
+			src = state // the device is now in IDLE, END must be requested from there
 		}
 		finalState, err = cm.DoTransition(EventInfo{fairmq.EvtEND, cm.fmqStateForState(src), cm.fmqStateForState(dst), args})
 		finalState = cm.stateForFmqState(finalState)
